@@ -20,11 +20,11 @@ fn main() {
                                 8 => -1.2345678901234567e300, 9 => f64::NAN, 10 => f64::NEG_INFINITY, k if k >= 40 => { let e = k as i32 - 40 - 325; let m = if e % 2 == 0 { -1.2345678901234567 } else { -9.999999999999999 }; format!("{m}e{e}").parse::<f64>().unwrap() }, _ => { let b = rnd(); let v = f64::from_bits(b); if k % 2 == 0 { -(10f64.powi((b % 60) as i32 - 30)) * 1.2345678901234567 } else { v } } };
                             n += 1;
                             let o2 = o.clone();
-                            let r = std::panic::catch_unwind(move || write_in_bound_f64::<F>(v, &o2));
+                            let r = std::panic::catch_unwind(move || write_in_bound_f64::<F>(v, &o2, if maxd == 0 { Some((nb, pb)) } else { None }));
                             let e = match r { Ok(Ok(_)) => None, Ok(Err(e)) => Some(e.to_string()), Err(_) => Some("PANIC".to_string()) };
                             if let Some(e) = e { bad += 1; if shown < 12 { shown += 1; println!("  min={mind} max={maxd} breaks=({nb},{pb}) trim={trim} bound={} v={v:e}: {e}", o.buffer_size_const::<f64, F>()); } }
                             if k > 10 { let v32 = f32::from_bits(rnd() as u32); let o3 = o.clone(); n += 1;
-                                let r = std::panic::catch_unwind(move || write_in_bound_f32::<F>(v32, &o3));
+                                let r = std::panic::catch_unwind(move || write_in_bound_f32::<F>(v32, &o3, if maxd == 0 { Some((nb, pb)) } else { None }));
                                 if !matches!(r, Ok(Ok(_))) { bad += 1; if shown < 12 { shown += 1; println!("  f32 min={mind} max={maxd} breaks=({nb},{pb}) trim={trim} v={v32:e}"); } } }
                         }
                     }
